@@ -287,12 +287,18 @@ def synthetic_messages(seed, n, collide=True):
                 out.append({'ref': 'synth:%d:%d:large-header' % (seed, i), 'hex': msg.hex(), 'src': 'synth',
                             'truth': truth})
             continue
+        plain11 = collide and i % 13 == 9
+        if plain11:
+            # data category 11 (BUFR tables) with an ordinary template: a valid message like any other - it is
+            # not a table definition in the NCEP layout, nothing is to be registered from it
+            spec['category'] = 11
         msg, truth = bufrgen.write_message(spec)
         if len(msg) > MAX_MSG:
             continue
         if small is None or (len(msg) < 120 and rng.random() < 0.3):
             small = msg.hex()
-        out.append({'ref': 'synth:%d:%d' % (seed, i), 'hex': msg.hex(), 'src': 'synth', 'truth': truth})
+        out.append({'ref': 'synth:%d:%d%s' % (seed, i, ':cat11' if plain11 else ''), 'hex': msg.hex(), 'src': 'synth',
+                    'truth': truth})
     return out
 
 
@@ -376,7 +382,7 @@ def gen_operator_spec(rng, version=None, rv=None, force_n=None, perm=False):
         bits.add(rv.getrandbits(n) if n else 0, n)
 
     kind = rng.choice(['bitmap', 'bitmap', 'bitmap', 'plain-ops', 'plain-ops', 'bitmap-blocks', 'bitmap-blocks',
-                       'seq-ops', 'wide', 'bitmap+203', 'bitmap+204', 'bitmap+dbm', 'bitmap+dbm'])
+                       'seq-ops', 'wide', 'bitmap+203', 'bitmap+204', 'bitmap+dbm', 'bitmap+dbm', 'plain-ops+221'])
     # feature interactions of the bitmap programs: '+203' - new reference values (203YYY) defined for an element
     # the bitmap refers to, cancelled before the bitmap operator or still in force at the marker operators;
     # '+204' - an associated field (204YYY) in force at the marker operators; '+dbm' - the bits of the bitmap
@@ -387,11 +393,13 @@ def gen_operator_spec(rng, version=None, rv=None, force_n=None, perm=False):
     if kind in ('seq-ops', 'wide'):
         return _gen_seq_ops_spec(rng, version, b, _d, nums, rv, kind)
     has_factor = False
-    if kind == 'plain-ops':
+    if kind.startswith('plain-ops'):
         factor_prefix = b''
         for gi in range(rng.randint(1, 4)):
             g = []
             r = rng.random()
+            if kind == 'plain-ops+221' and gi == 0:
+                r = 0.99            # 221YYY (data not present) for certain
             if r < 0.15:
                 g += [201000 + rng.choice([126, 127, 129, 130, 132]), rng.choice(nums), rng.choice(nums), 201000]
             elif r < 0.30:
@@ -405,13 +413,15 @@ def gen_operator_spec(rng, version=None, rv=None, force_n=None, perm=False):
                 g += [203000 + rng.randint(6, 16), e1, e2, 203255, e1, rng.choice(nums), e2, 203000]
             elif r < 0.84 and 31021 in b:
                 g += [204000 + rng.randint(1, 8), 31021, rng.choice(nums), rng.choice(els), 204000]
-            elif r < 0.90:
+            elif r < 0.88:
                 g += [206000 + rng.randint(1, 24), 63000 + rng.randint(200, 250), rng.choice(nums)]
-            elif r < 0.95:
+            elif r < 0.92:
                 g += [205000 + rng.randint(1, 8), rng.choice(nums)]
             else:
-                g += [221000 + 3, rng.choice([e for e in nums if 1 <= e // 1000 <= 9] or nums),
-                      rng.choice(nums), rng.choice(nums)]
+                # data not present for the next YYY descriptors except classes 1-9 and 31
+                y = rng.randint(2, 5)
+                g += [221000 + y, rng.choice([e for e in nums if 1 <= e // 1000 <= 9] or nums)] + \
+                     [rng.choice(els) for _ in range(y - 1)]
             # a replication INSIDE the operator's scope (opened and closed at the same level around it):
             # 201YYY / 202YYY / 207YYY e (1XX00n | 1XX000 031001) e.. e 20X000
             if r < 0.45 and rng.random() < 0.35:
@@ -1020,7 +1030,9 @@ def classify(entry):
     emb7 = raw.find(b'7777', 0, len(raw) - 4) >= 0
     return '%s-e%d%s%s%s%s%s%s' % (entry['src'][0], w['edition'], 'c' if w['compressed'] else 'u',
                                    '2' if 2 in w['sections'] else '', 'B' if emb else '', 'S' if emb7 else '',
-                                   'D' if w['category'] == 11 else '', 'L' if len(raw) > 60000 else '')
+                                   # D: a table-definition message (NCEP layout); P: category 11, any other template
+                                   ('D' if 300004 in w['ids'] else 'P') if w['category'] == 11 else '',
+                                   'L' if len(raw) > 60000 else '')
 
 
 def admit_all(entries, want_values=False):
